@@ -357,8 +357,8 @@ func mapKeysAscending(ts []sb.Token) (bool, string) {
 			for i := 0; i+1 < len(v.items); i += 2 {
 				k := v.items[i].flatten(nil)
 				if i > 0 {
-					c, err := sb.Compare(tokensFrom(prev), tokensFrom(k))
-					if err != nil || c >= 0 {
+					c := refLex(prev, k) // the documented order, independently of sb.Compare
+					if c >= 0 {
 						return false, fmt.Sprintf("key [%s] does not sort strictly after [%s]", descTokens(k), descTokens(prev))
 					}
 				}
@@ -537,6 +537,8 @@ func famTyped(dir string, seed int64, tier string) {
 			repU.violate("C01", "roundtrip-bytes", fmt.Sprintf("round trip through bytes (%s, %s) fails: %v", writerFlavours[wf], readerFlavours[rf], eU2), desc)
 		}
 	}
+	typedKeyOrder(repM, wM, r)
+	typedRegisteredMarshaler(repU)
 	typedMore(dir, seed, tier, repU, wU)
 	typedTargeted(repU, wU, r)
 	typedEvolution(dir, seed, tier, repM, repU, wM, wU)
